@@ -207,3 +207,109 @@ Definition noop_client_sched (r : router) (cc : nat) (st : Z) (hs : list header)
 
 Definition noop_client (r : router) (cc : nat) (st : Z) (hs : list header) (body : list chunk) : nobs :=
   noop_client_sched r cc st hs body 1000 (eager_sched (List.length (handler_prog cc body))).
+
+(* ================= encoding/json at the byte level: string literals =================
+   go_escape: what encodeState.string writes between the quotes with HTML escaping on (gin c.JSON
+   and mux json.Marshal): double quote and backslash get a backslash; backspace, form feed, newline,
+   carriage return and tab their short forms; other bytes below 0x20 and the three characters
+   less-than, greater-than, ampersand become backslash-u-00xx (lower-case hex); U+2028 and U+2029
+   become backslash-u-2028 / 2029; every other byte is copied (valid UTF-8 is copied; invalid
+   UTF-8 - outside the property - is not modelled).
+   go_unquote: what the decoder (and any JSON client) makes of the text after the opening quote,
+   up to the closing quote; None = malformed, a raw control character, or an escaped surrogate
+   (D800..DFFF: pairs are not modelled, the encoder never writes them). *)
+Definition hexd (n : N) : ascii :=
+  ascii_of_N (if (n <? 10)%N then 48 + n else 87 + n)%N.
+
+Definition esc_byte (a : ascii) : string :=
+  let n := N_of_ascii a in
+  if (n =? 34)%N then "\""" else if (n =? 92)%N then "\\"
+  else if (n =? 8)%N then "\b" else if (n =? 12)%N then "\f"
+  else if (n =? 10)%N then "\n" else if (n =? 13)%N then "\r" else if (n =? 9)%N then "\t"
+  else if (n <? 32)%N || (n =? 60)%N || (n =? 62)%N || (n =? 38)%N
+       then String "\" (String "u" (String "0" (String "0" (String (hexd (n / 16)) (String (hexd (n mod 16)) "")))))
+  else String a "".
+
+Definition is_byte (a : ascii) (n : N) : bool := (N_of_ascii a =? n)%N.
+
+Fixpoint go_escape (s : string) : string :=
+  match s with
+  | EmptyString => ""
+  | String a r =>
+      match r with
+      | String b (String c r3) =>
+          if is_byte a 226 && is_byte b 128 && (is_byte c 168 || is_byte c 169)
+          then ("\u202" ++ String (hexd (N_of_ascii c - 160)) (go_escape r3))%string
+          else (esc_byte a ++ go_escape r)%string
+      | _ => (esc_byte a ++ go_escape r)%string
+      end
+  end.
+
+Definition hexv (a : ascii) : option N :=
+  let n := N_of_ascii a in
+  if (48 <=? n)%N && (n <=? 57)%N then Some (n - 48)%N
+  else if (97 <=? n)%N && (n <=? 102)%N then Some (n - 87)%N
+  else if (65 <=? n)%N && (n <=? 70)%N then Some (n - 55)%N
+  else None.
+
+Definition hex4 (a b c d : ascii) : option N :=
+  match hexv a, hexv b, hexv c, hexv d with
+  | Some x, Some y, Some z, Some w => Some (x * 4096 + y * 256 + z * 16 + w)%N
+  | _, _, _, _ => None
+  end.
+
+(* UTF-8 of a code point of the basic plane (surrogates excluded by the caller) *)
+Definition utf8 (n : N) : string :=
+  if (n <? 128)%N then String (ascii_of_N n) ""
+  else if (n <? 2048)%N then String (ascii_of_N (192 + n / 64)) (String (ascii_of_N (128 + n mod 64)) "")
+  else String (ascii_of_N (224 + n / 4096))
+         (String (ascii_of_N (128 + (n / 64) mod 64)) (String (ascii_of_N (128 + n mod 64)) "")).
+
+Definition pre (p : string) (x : option (string * string)) : option (string * string) :=
+  match x with Some (s, rest) => Some ((p ++ s)%string, rest) | None => None end.
+
+Fixpoint go_unquote (s : string) : option (string * string) :=
+  match s with
+  | EmptyString => None                                   (* no closing quote *)
+  | String a r =>
+      if is_byte a 34 then Some ("", r)
+      else if is_byte a 92 then
+        match r with
+        | String e r1 =>
+            if is_byte e 117 then
+              match r1 with
+              | String h1 (String h2 (String h3 (String h4 r5))) =>
+                  match hex4 h1 h2 h3 h4 with
+                  | Some n => if (55296 <=? n)%N && (n <=? 57343)%N then None
+                              else pre (utf8 n) (go_unquote r5)
+                  | None => None
+                  end
+              | _ => None
+              end
+            else if is_byte e 34 then pre """" (go_unquote r1)
+            else if is_byte e 92 then pre "\" (go_unquote r1)
+            else if is_byte e 47 then pre "/" (go_unquote r1)
+            else if is_byte e 98 then pre (String (ascii_of_N 8) "") (go_unquote r1)
+            else if is_byte e 102 then pre (String (ascii_of_N 12) "") (go_unquote r1)
+            else if is_byte e 110 then pre (String (ascii_of_N 10) "") (go_unquote r1)
+            else if is_byte e 114 then pre (String (ascii_of_N 13) "") (go_unquote r1)
+            else if is_byte e 116 then pre (String (ascii_of_N 9) "") (go_unquote r1)
+            else None
+        | EmptyString => None
+        end
+      else if (N_of_ascii a <? 32)%N then None            (* raw control character *)
+      else pre (String a "") (go_unquote r)
+  end.
+
+(* number literals: the scanner takes the longest run of number characters; the decoder with
+   UseNumber keeps exactly that text, Marshal writes a json.Number as it is *)
+Definition num_char (a : ascii) : bool :=
+  let n := N_of_ascii a in
+  ((48 <=? n)%N && (n <=? 57)%N) || (n =? 45)%N || (n =? 43)%N || (n =? 46)%N || (n =? 101)%N || (n =? 69)%N.
+Fixpoint scan_number (s : string) : string * string :=
+  match s with
+  | EmptyString => ("", "")
+  | String a r => if num_char a then let '(l, rest) := scan_number r in (String a l, rest) else ("", s)
+  end.
+Fixpoint all_chars (p : ascii -> bool) (s : string) : bool :=
+  match s with EmptyString => true | String a r => p a && all_chars p r end.
